@@ -16,7 +16,7 @@ enum Code { O_CONNECT = 1, O_DISCONNECT, O_EMIT, O_DESTROY_L, O_DESTROY_E, O_CRE
 static const char* codeName[] = {"?", "connect", "disconnect", "emit", "destroy_listener", "destroy_emitter", "create_listener", "create_emitter"};
 static const char* opName(int c) { return (c > 0 && c < O_N) ? codeName[c] : "?"; }
 
-static const int NE = 3, NL = 4, NS = 3;
+static const int NE = 3, NL = 4, NS = 10;   /* signals: 0 sigA(int), 1 sigB(), 2 sigC(int), 3..9 = two..eight int arguments (every hand-written emit/connect/disconnect overload) */
 struct MyEmitter; struct MyListener;
 static void harnessSlot(int lid, int slot, int arg);
 static volatile int sink;
@@ -28,12 +28,33 @@ struct MyEmitter : public Callback::Emitter {
   void emitA(int v) { emit(&MyEmitter::sigA, v); }
   void emitB() { emit(&MyEmitter::sigB); }
   void emitC(int v) { emit(&MyEmitter::sigC, v); }
+  __attribute__((noinline)) void sig2(int a, int b) { sink = a + b; }
+  __attribute__((noinline)) void sig3(int a, int b, int c) { sink = a + c; }
+  __attribute__((noinline)) void sig4(int a, int b, int c, int d) { sink = a + d; }
+  __attribute__((noinline)) void sig5(int a, int b, int c, int d, int e) { sink = a + e; }
+  __attribute__((noinline)) void sig6(int a, int b, int c, int d, int e, int f) { sink = a + f; }
+  __attribute__((noinline)) void sig7(int a, int b, int c, int d, int e, int f, int g) { sink = a + g; }
+  __attribute__((noinline)) void sig8(int a, int b, int c, int d, int e, int f, int g, int h) { sink = a + h; }
+  void emitN(int n, int v) {
+    switch (n) {
+    case 2: emit(&MyEmitter::sig2, v, 2); break; case 3: emit(&MyEmitter::sig3, v, 2, 3); break; case 4: emit(&MyEmitter::sig4, v, 2, 3, 4); break;
+    case 5: emit(&MyEmitter::sig5, v, 2, 3, 4, 5); break; case 6: emit(&MyEmitter::sig6, v, 2, 3, 4, 5, 6); break; case 7: emit(&MyEmitter::sig7, v, 2, 3, 4, 5, 6, 7); break;
+    case 8: emit(&MyEmitter::sig8, v, 2, 3, 4, 5, 6, 7, 8); break; }
+  }
 };
 struct MyListener : public Callback::Listener {
   int id;
   void sa0(int v) { harnessSlot(id, 0, v); }
   void sa1(int v) { harnessSlot(id, 1, v); }
   void sb0() { harnessSlot(id, 2, 0); }
+  static void argsOk(bool ok) { if (!ok) fail("C12/wrong_arguments", "a slot received other arguments than were emitted"); }
+  void s2(int a, int b) { argsOk(b == 2); harnessSlot(id, 3, a); }
+  void s3(int a, int b, int c) { argsOk(b == 2 && c == 3); harnessSlot(id, 4, a); }
+  void s4(int a, int b, int c, int d) { argsOk(b == 2 && c == 3 && d == 4); harnessSlot(id, 5, a); }
+  void s5(int a, int b, int c, int d, int e) { argsOk(b == 2 && c == 3 && d == 4 && e == 5); harnessSlot(id, 6, a); }
+  void s6(int a, int b, int c, int d, int e, int f) { argsOk(b == 2 && c == 3 && d == 4 && e == 5 && f == 6); harnessSlot(id, 7, a); }
+  void s7(int a, int b, int c, int d, int e, int f, int g) { argsOk(b == 2 && c == 3 && d == 4 && e == 5 && f == 6 && g == 7); harnessSlot(id, 8, a); }
+  void s8(int a, int b, int c, int d, int e, int f, int g, int h) { argsOk(b == 2 && c == 3 && d == 4 && e == 5 && f == 6 && g == 7 && h == 8); harnessSlot(id, 9, a); }
 };
 
 struct Conn { int e, sig, l, slot; uint64_t seq; bool live; };           // sig 0 = sigA(int), 1 = sigB(), 2 = sigC(int); slots 0,1 take int (sigA, sigC: one slot may serve both), slot 2 takes nothing (sigB)
@@ -51,7 +72,12 @@ static void doConnect(int e, int sig, int l, int slot) {
   if (!C.em[e] || !C.li[l]) return;
   if (sig == 0) { if (slot == 0) Callback::connect(C.em[e], &MyEmitter::sigA, C.li[l], &MyListener::sa0); else Callback::connect(C.em[e], &MyEmitter::sigA, C.li[l], &MyListener::sa1); }
   else if (sig == 2) { if (slot == 0) Callback::connect(C.em[e], &MyEmitter::sigC, C.li[l], &MyListener::sa0); else Callback::connect(C.em[e], &MyEmitter::sigC, C.li[l], &MyListener::sa1); }
-  else Callback::connect(C.em[e], &MyEmitter::sigB, C.li[l], &MyListener::sb0);
+  else if (sig == 1) Callback::connect(C.em[e], &MyEmitter::sigB, C.li[l], &MyListener::sb0);
+  else switch (sig) {
+    case 3: Callback::connect(C.em[e], &MyEmitter::sig2, C.li[l], &MyListener::s2); break; case 4: Callback::connect(C.em[e], &MyEmitter::sig3, C.li[l], &MyListener::s3); break;
+    case 5: Callback::connect(C.em[e], &MyEmitter::sig4, C.li[l], &MyListener::s4); break; case 6: Callback::connect(C.em[e], &MyEmitter::sig5, C.li[l], &MyListener::s5); break;
+    case 7: Callback::connect(C.em[e], &MyEmitter::sig6, C.li[l], &MyListener::s6); break; case 8: Callback::connect(C.em[e], &MyEmitter::sig7, C.li[l], &MyListener::s7); break;
+    case 9: Callback::connect(C.em[e], &MyEmitter::sig8, C.li[l], &MyListener::s8); break; }
   Host h; bool dup = false; for (auto& c : C.conns) if (c.live && c.e == e && c.sig == sig && c.l == l && c.slot == slot) dup = true;
   if (dup) probe("duplicate_connection");
   for (auto& c : C.conns) if (c.live && c.e == e && c.sig != sig && c.l == l && c.slot == slot) probe("slot_on_two_signals_of_one_emitter");
@@ -65,13 +91,18 @@ static void doDisconnect(int e, int sig, int l, int slot) {
   { Host h; for (auto& m : C.stack) if (m.e == e && m.sig == sig && victim->seq > m.cursorSeq && victim->seq < outermostStart(e, sig)) probe("disconnect_pending_slot"); victim->live = false; ++C.seq; }
   if (sig == 0) { if (slot == 0) Callback::disconnect(C.em[e], &MyEmitter::sigA, C.li[l], &MyListener::sa0); else Callback::disconnect(C.em[e], &MyEmitter::sigA, C.li[l], &MyListener::sa1); }
   else if (sig == 2) { if (slot == 0) Callback::disconnect(C.em[e], &MyEmitter::sigC, C.li[l], &MyListener::sa0); else Callback::disconnect(C.em[e], &MyEmitter::sigC, C.li[l], &MyListener::sa1); }
-  else Callback::disconnect(C.em[e], &MyEmitter::sigB, C.li[l], &MyListener::sb0);
+  else if (sig == 1) Callback::disconnect(C.em[e], &MyEmitter::sigB, C.li[l], &MyListener::sb0);
+  else switch (sig) {
+    case 3: Callback::disconnect(C.em[e], &MyEmitter::sig2, C.li[l], &MyListener::s2); break; case 4: Callback::disconnect(C.em[e], &MyEmitter::sig3, C.li[l], &MyListener::s3); break;
+    case 5: Callback::disconnect(C.em[e], &MyEmitter::sig4, C.li[l], &MyListener::s4); break; case 6: Callback::disconnect(C.em[e], &MyEmitter::sig5, C.li[l], &MyListener::s5); break;
+    case 7: Callback::disconnect(C.em[e], &MyEmitter::sig6, C.li[l], &MyListener::s6); break; case 8: Callback::disconnect(C.em[e], &MyEmitter::sig7, C.li[l], &MyListener::s7); break;
+    case 9: Callback::disconnect(C.em[e], &MyEmitter::sig8, C.li[l], &MyListener::s8); break; }
 }
 static void doEmit(int e, int sig, int arg) {
   if (!C.em[e] || C.stack.size() >= 4 || C.invocations > 150) return;
   { Host h; if (outermostStart(e, sig) != ~0ULL) probe("nested_same_signal"); C.stack.push_back(Emission{e, sig, ++C.seq, 0, false}); }
   MyEmitter* em = C.em[e];
-  if (sig == 0) em->emitA(arg); else if (sig == 2) em->emitC(arg); else em->emitB();
+  if (sig == 0) em->emitA(arg); else if (sig == 2) em->emitC(arg); else if (sig == 1) em->emitB(); else em->emitN(sig - 1, arg);
   Host h;
   Emission m = C.stack.back();
   if (!m.emitterDied && C.em[e] == em) {
@@ -95,7 +126,7 @@ static void doCreateEmitter(int e) { if (C.em[e]) return; C.em[e] = new MyEmitte
 
 static void perform(int code, int a0, int a1, int a2, int a3) {
   logEvent("op", code, a0 * 1000 + a1 * 100 + a2 * 10 + a3);
-  int e = a0 % NE, l = a1 % NL, sig = a2 % NS, slot = sig != 1 ? a3 % 2 : 2;
+  int e = a0 % NE, l = a1 % NL, sig = a2 % NS, slot = sig == 1 ? 2 : sig >= 3 ? sig : a3 % 2;
   switch (code) {
   case O_CONNECT: doConnect(e, sig, l, slot); break;
   case O_DISCONNECT: doDisconnect(e, sig, l, slot); break;
@@ -141,8 +172,14 @@ static void harnessSlot(int lid, int slot, int arg) {
   }
 }
 
-static Callback::MemberFuncPtr sigKey(int sig) { return sig == 0 ? Callback::MemberFuncPtr(&MyEmitter::sigA) : sig == 1 ? Callback::MemberFuncPtr(&MyEmitter::sigB) : Callback::MemberFuncPtr(&MyEmitter::sigC); }
-static Callback::MemberFuncPtr slotKey(int slot) { return slot == 0 ? Callback::MemberFuncPtr(&MyListener::sa0) : slot == 1 ? Callback::MemberFuncPtr(&MyListener::sa1) : Callback::MemberFuncPtr(&MyListener::sb0); }
+static Callback::MemberFuncPtr sigKey(int sig) {
+  switch (sig) { case 0: return Callback::MemberFuncPtr(&MyEmitter::sigA); case 1: return Callback::MemberFuncPtr(&MyEmitter::sigB); case 2: return Callback::MemberFuncPtr(&MyEmitter::sigC);
+    case 3: return Callback::MemberFuncPtr(&MyEmitter::sig2); case 4: return Callback::MemberFuncPtr(&MyEmitter::sig3); case 5: return Callback::MemberFuncPtr(&MyEmitter::sig4); case 6: return Callback::MemberFuncPtr(&MyEmitter::sig5);
+    case 7: return Callback::MemberFuncPtr(&MyEmitter::sig6); case 8: return Callback::MemberFuncPtr(&MyEmitter::sig7); default: return Callback::MemberFuncPtr(&MyEmitter::sig8); } }
+static Callback::MemberFuncPtr slotKey(int slot) {
+  switch (slot) { case 0: return Callback::MemberFuncPtr(&MyListener::sa0); case 1: return Callback::MemberFuncPtr(&MyListener::sa1); case 2: return Callback::MemberFuncPtr(&MyListener::sb0);
+    case 3: return Callback::MemberFuncPtr(&MyListener::s2); case 4: return Callback::MemberFuncPtr(&MyListener::s3); case 5: return Callback::MemberFuncPtr(&MyListener::s4); case 6: return Callback::MemberFuncPtr(&MyListener::s5);
+    case 7: return Callback::MemberFuncPtr(&MyListener::s6); case 8: return Callback::MemberFuncPtr(&MyListener::s7); default: return Callback::MemberFuncPtr(&MyListener::s8); } }
 // both sides' bookkeeping must describe exactly the model's live connections
 static void checkBookkeeping() {
   for (int e = 0; e < NE; ++e) { MyEmitter* em = C.em[e]; if (!em) continue;
@@ -209,15 +246,16 @@ static void generate(RunSpec& s, int tier) {
   struct GC { int e, sig, l, slot; }; std::vector<GC> gc;
   auto pickE = [&]() { for (int t = 0; t < 8; ++t) { int e = (int)r(NE); if (eAlive[e]) return e; } return (int)r(NE); };
   auto pickL = [&]() { for (int t = 0; t < 8; ++t) { int l = (int)r(NL); if (lAlive[l]) return l; } return (int)r(NL); };
+  bool wide = r(3) == 0;      /* a third of the plans use mostly the signals with two to eight arguments */
   int n = 4 + (int)r(12);
   for (int i = 0; i < n; ++i) {
-    Op o; o.task = 0; o.a[0] = pickE(); o.a[1] = pickL(); o.a[2] = (int64_t)r(NS); o.a[3] = (int64_t)r(2);
+    Op o; o.task = 0; o.a[0] = pickE(); o.a[1] = pickL(); o.a[2] = wide ? (r(3) ? 3 + (int64_t)r(7) : (int64_t)r(3)) : (int64_t)r(3); o.a[3] = (int64_t)r(2);
     uint64_t k = r(100);
     if (i < 3) k = r(38);     // start with a few connections
     o.code = k < 38 ? O_CONNECT : k < 50 ? O_DISCONNECT : k < 84 ? O_EMIT : k < 90 ? O_DESTROY_L : k < 93 ? O_DESTROY_E : k < 97 ? O_CREATE_L : O_CREATE_E;
-    if (o.code == O_CONNECT && !gc.empty() && r(5) == 0) { GC g = gc[r(gc.size())]; o.a[0] = g.e; o.a[1] = g.l; o.a[2] = g.sig; o.a[3] = g.slot == 2 ? 0 : g.slot; if (g.sig != 1 && r(2)) o.a[2] = 2 - g.sig; }   // duplicate connection, or the same slot on the emitter's other int signal
-    if ((o.code == O_DISCONNECT || o.code == O_EMIT) && !gc.empty() && r(6) != 0) { GC g = gc[r(gc.size())]; o.a[0] = g.e; o.a[2] = g.sig; if (o.code == O_DISCONNECT) { o.a[1] = g.l; o.a[3] = g.slot == 2 ? 0 : g.slot; } }
-    if (o.code == O_CONNECT) gc.push_back(GC{(int)o.a[0], (int)(o.a[2] % NS), (int)o.a[1], (o.a[2] % NS) != 1 ? (int)(o.a[3] % 2) : 2});
+    if (o.code == O_CONNECT && !gc.empty() && r(5) == 0) { GC g = gc[r(gc.size())]; o.a[0] = g.e; o.a[1] = g.l; o.a[2] = g.sig; o.a[3] = g.slot >= 2 ? 0 : g.slot; if ((g.sig == 0 || g.sig == 2) && r(2)) o.a[2] = 2 - g.sig; }   // duplicate connection, or the same slot on the emitter's other int signal
+    if ((o.code == O_DISCONNECT || o.code == O_EMIT) && !gc.empty() && r(6) != 0) { GC g = gc[r(gc.size())]; o.a[0] = g.e; o.a[2] = g.sig; if (o.code == O_DISCONNECT) { o.a[1] = g.l; o.a[3] = g.slot >= 2 ? 0 : g.slot; } }
+    if (o.code == O_CONNECT) { int sg = (int)(o.a[2] % NS); gc.push_back(GC{(int)o.a[0], sg, (int)o.a[1], sg == 1 ? 2 : sg >= 3 ? sg : (int)(o.a[3] % 2)}); }
     if (o.code == O_DESTROY_L) lAlive[o.a[1]] = false; if (o.code == O_DESTROY_E) eAlive[o.a[0]] = false; if (o.code == O_CREATE_L) { o.a[1] = (int64_t)r(NL); lAlive[o.a[1]] = true; } if (o.code == O_CREATE_E) { o.a[0] = (int64_t)r(NE); eAlive[o.a[0]] = true; }
     s.plan.push_back(o);
   }
